@@ -72,7 +72,7 @@ func (e *Exec) get(fr *Frame, v ssa.Value) Value {
 	return r
 }
 
-const maxDepth = 200
+const maxDepth = 3000
 
 type internalErr struct{ msg string }
 
@@ -360,6 +360,9 @@ func (e *Exec) evalValue(fr *Frame, in ssa.Instruction, val ssa.Value) (Value, *
 	switch x := in.(type) {
 	case *ssa.Alloc:
 		et := x.Type().Underlying().(*types.Pointer).Elem()
+		if x.Heap {
+			e.alloc += sizeofType(et)
+		}
 		return &Ptr{Obj: e.newObj(e.zero(et), x.Comment)}, nil
 	case *ssa.BinOp:
 		return e.binop(fr, x, x.Op, e.get(fr, x.X), e.get(fr, x.Y), x.X.Type(), x.Y.Type())
@@ -479,6 +482,9 @@ func (e *Exec) evalValue(fr *Frame, in ssa.Instruction, val ssa.Value) (Value, *
 		}
 		return &FuncV{Fn: x.Fn.(*ssa.Function), Bind: b}, nil
 	case *ssa.MakeInterface:
+		if _, isPtr := x.X.Type().Underlying().(*types.Pointer); !isPtr {
+			e.alloc += sizeofType(x.X.Type()) // boxing a non-pointer value allocates
+		}
 		return &IfaceV{T: x.X.Type(), V: copyVal(e.get(fr, x.X))}, nil
 	case *ssa.MakeMap:
 		e.objN++
